@@ -407,3 +407,137 @@ func c03r6(c *Ctx, r *Report) {
 	}
 	r.floor("scoring inputs assigned by Init", len(gs), 4)
 }
+
+// eqConstLits collects, for a block, the constants K such that every disjunct of the block's path
+// condition contains a positive literal `x == K` (x any value, K an integer constant). ok is false when
+// some disjunct has no such literal.
+func eqConstLits(pc *PathConds, b *ssa.BasicBlock) (ks map[int64]bool, ok bool) {
+	ks = map[int64]bool{}
+	ds := pc.At(b)
+	if len(ds) == 0 {
+		return ks, false
+	}
+	for _, dj := range ds {
+		found := false
+		for _, lt := range dj {
+			bo, isBin := lt.Atom.(*ssa.BinOp)
+			if !isBin {
+				continue
+			}
+			if !(bo.Op == token.EQL && lt.Val || bo.Op == token.NEQ && !lt.Val) {
+				continue
+			}
+			for _, side := range []ssa.Value{bo.X, bo.Y} {
+				if k, isK := constIntVal(side); isK {
+					ks[k] = true
+					found = true
+				}
+			}
+		}
+		if !found {
+			return ks, false
+		}
+	}
+	return ks, true
+}
+
+// c18r8: a request that makes the render goroutine leave the session (it calls the exit closure and
+// returns) must also stop the event loop, in the very call of `req` that posts it. Otherwise the loop keeps
+// consuming keys until the render goroutine gets round to exit(), and whatever those keys do to the query is
+// what gets printed and stored in the history (D24: req cleared `looping` for reqClose and reqQuit only;
+// after print-query / accept-or-print-query typed-ahead characters were appended to the query that was
+// printed and written to the history file).
+func c18r8(c *Ctx, r *Report) {
+	l := c.L
+	r.rule("C18-R8", "E (agreement of two case lists over one enumeration)", "P1",
+		"in Terminal.Loop, every request type under which the render goroutine calls exit(...) is a request type for which the req closure clears `looping`",
+		"keys that arrive right after the submitting key (type-ahead, paste) still edit the query: print-query prints, and the history stores, a query that was never submitted")
+	loop := l.Fn("fzf", "(*Terminal).Loop")
+	if loop == nil {
+		r.unest("anchors", token.NoPos, nil, "anchor Terminal.Loop", "cannot resolve")
+		return
+	}
+	reqName := func(k int64) string {
+		sc := l.pkg("fzf").Pkg.Scope()
+		for _, nm := range sc.Names() {
+			if !strings.HasPrefix(nm, "req") {
+				continue
+			}
+			if cst, ok := sc.Lookup(nm).(*types.Const); ok {
+				if v, ok := constInt(cst); ok && v == k {
+					return nm
+				}
+			}
+		}
+		return fmt.Sprintf("request %d", k)
+	}
+	namedVar := func(v ssa.Value, name string) bool {
+		if u, ok := v.(*ssa.UnOp); ok && u.Op == token.MUL {
+			v = u.X
+		}
+		switch x := v.(type) {
+		case *ssa.FreeVar:
+			return x.Name() == name
+		case *ssa.Alloc:
+			return x.Comment == name
+		}
+		return false
+	}
+	exits := map[int64]token.Pos{}
+	var stops map[int64]bool
+	nStop := 0
+	for _, fn := range withClosures(loop) {
+		var pc *PathConds
+		eachInstr(fn, func(in ssa.Instruction) {
+			switch x := in.(type) {
+			case *ssa.Call:
+				if x.Common().IsInvoke() || !namedVar(x.Common().Value, "exit") {
+					return
+				}
+				if pc == nil {
+					pc = pathConds(fn)
+				}
+				ks, ok := eqConstLits(pc, x.Block())
+				if !ok {
+					r.unest(fmt.Sprintf("%s:exit call at a request case", relName(fn)), x.Pos(), fn, "the exit call sits under a case of the request switch", "cannot relate this exit call to a request type")
+					return
+				}
+				for k := range ks {
+					exits[k] = x.Pos()
+				}
+			case *ssa.Store:
+				if !namedVar(x.Addr, "looping") {
+					return
+				}
+				if k, ok := x.Val.(*ssa.Const); !ok || k.Value == nil || k.Value.String() != "false" {
+					return
+				}
+				if pc == nil {
+					pc = pathConds(fn)
+				}
+				ks, ok := eqConstLits(pc, x.Block())
+				if !ok {
+					return // an unconditional stop elsewhere in the loop (e.g. on a fatal read error)
+				}
+				nStop++
+				if stops == nil {
+					stops = map[int64]bool{}
+				}
+				for k := range ks {
+					stops[k] = true
+				}
+			}
+		})
+	}
+	var ks []int64
+	for k := range exits {
+		ks = append(ks, k)
+	}
+	sort.Slice(ks, func(i, j int) bool { return ks[i] < ks[j] })
+	for _, k := range ks {
+		r.check(stops[k], fmt.Sprintf("%s:%s ends the session and stops the event loop", relName(loop), reqName(k)), exits[k], loop,
+			"req clears `looping` for this request", "the render goroutine exits on this request but req does not clear `looping` for it: the event loop keeps applying keys to the query until exit() runs")
+	}
+	r.floor("request types that end the session", len(ks), 5)
+	r.floor("conditional stores of looping=false keyed by a request type", nStop, 1)
+}
